@@ -243,6 +243,68 @@ func runC04(w *World, r *Report) {
 	r.Rule("C04.copy-partition", "a node's output is copied once per edge successor, once per branch condition and once per branch result, and the branch conditions read only their own copies (shared with C01): under Stream / Collect / Transform a condition must not drain the stream an edge successor receives", 2)
 	copyPartitionCheck(w, r, "C04.copy-partition")
 
+	// the per-chunk filter of an input-keyed node drops a chunk (ErrNoValue) only when the key is absent from it; a value
+	// of the wrong type under the key is a failure in the stream paradigms exactly as it is under Invoke
+	r.Rule("C04.key-filter-miss-only", "defaultStreamMapFilter's converter returns ErrNoValue only on the miss arm of the key lookup; a failed type assertion returns an ordinary error", 2)
+	{
+		f := w.Fn("compose", "defaultStreamMapFilter")
+		env := w.GlobalVar("schema", "ErrNoValue")
+		nNoValue, nAssert := 0, 0
+		for _, lit := range withAnons(f) {
+			instrs(lit, func(in ssa.Instruction) {
+				ret, ok := in.(*ssa.Return)
+				if !ok || len(ret.Results) != 2 {
+					return
+				}
+				isNoValue := false
+				if u, ok := ret.Results[1].(*ssa.UnOp); ok {
+					if g, ok := u.X.(*ssa.Global); ok && g.Object() == types.Object(env) {
+						isNoValue = true
+					}
+				}
+				onMiss := hasGuard(ret.Block(), func(g guard) bool {
+					e, ok := g.cond.(*ssa.Extract)
+					if !ok || e.Index != 1 || g.pol {
+						return false
+					}
+					lk, ok := e.Tuple.(*ssa.Lookup)
+					return ok && lk.CommaOk
+				})
+				onBadType := hasGuard(ret.Block(), func(g guard) bool {
+					e, ok := g.cond.(*ssa.Extract)
+					if !ok || e.Index != 1 || g.pol {
+						return false
+					}
+					_, isTA := e.Tuple.(*ssa.TypeAssert)
+					return isTA
+				})
+				if isNoValue {
+					nNoValue++
+					r.Check(onMiss && !onBadType, "C04.key-filter-miss-only", fmt.Sprintf("%s: ErrNoValue return #%d", w.fname(lit), nNoValue), ret.Pos(), "on the miss arm of the key lookup", "ErrNoValue (= drop this chunk) is returned for something other than an absent key: a value of the wrong type under the key is silently skipped in Stream / Collect / Transform while Invoke fails on it")
+				}
+				if onBadType && !isNoValue {
+					nAssert++
+					r.Check(!isNilConst(ret.Results[1]), "C04.key-filter-miss-only", fmt.Sprintf("%s: failed assertion return #%d", w.fname(lit), nAssert), ret.Pos(), "returns an error", "a value of the wrong type under the key is passed on without an error")
+				}
+			})
+		}
+		if nNoValue == 0 || nAssert == 0 {
+			r.Fail("C04.key-filter-miss-only", "defaultStreamMapFilter converter arms", f.Pos(), fmt.Sprintf("%d ErrNoValue returns / %d failed-assertion error returns found (1 / 1 expected)", nNoValue, nAssert))
+		}
+	}
+
+	r.Rule("C04.concat-leaves-chunks-alone", "the reflect-based concat functions write only into values they created (shared with C14.inputs-immutable): concatenating one copy of a stream must not change what the other copies' chunks hold", 1)
+	{
+		nf := 0
+		for _, f := range concatClosure(w) {
+			nf++
+			for i, h := range reflectWriteReceiversFromParams(f) {
+				r.Fail("C04.concat-leaves-chunks-alone", fmt.Sprintf("%s writes into a reflect.Value reached from its input #%d", w.fname(f), i+1), h.Pos(), "an input chunk is used as the accumulator and rewritten in place: after a fan-out the second consumer concatenates an already-concatenated chunk — the streaming paradigms disagree with Invoke")
+			}
+		}
+		r.OK("C04.concat-leaves-chunks-alone", fmt.Sprintf("%d functions of the concat closure examined", nf), token.NoPos, "reflect accumulators are fresh")
+	}
+
 	// ---- role-uniform (generalises in-out-wiring to every struct and function of the module)
 	r.Rule("C04.role-uniform", "within one function, same-role fields (input* / output*, pre* / post*) of one struct are filled from sources of one role; a lone cross-role assignment is a copy within one object", 20)
 	ruleRoleUniform(w, r, "C04.role-uniform", "compose", "schema", "internal", "flow", "callbacks", "components", "utils")
